@@ -904,3 +904,6 @@ def run(chk):
     check_get_line(chk, m, info)
     check_nice_clear(chk, m, info)
     check_readers(chk, m, info)
+    # the text itself is produced by strdup_printf: its contract (complete text, own buffer) is part of this property's clause
+    from . import strdep
+    strdep.import_into(chk)
